@@ -44,7 +44,7 @@ VARIANTS = {
     "gasan": GSAN,
     "plain": ["-O1"],
     "fi": SAN + ["-DVERIF_FAILALLOC=1"],
-    "cov": ["-O0", "--coverage"],
+    "cov": ["-O0", "--coverage", "-DVERIF_FAILALLOC=1"],
 }
 COMPILER = {"asan": "clang", "fi": "clang"}
 
@@ -127,7 +127,8 @@ def build(variant, repo=None, quiet=True):
         raise SystemExit("unknown variant " + variant)
     if os.environ.get("VERIF_ASAN_GCC") and variant == "asan":
         variant = "gasan"      # occasional sweep with gcc's ASan instead
-    if os.environ.get("VERIF_COVERAGE") and variant in ("asan", "plain"):
+    if os.environ.get("VERIF_COVERAGE") and variant in ("asan", "plain", "fi",
+                                                        "gasan"):
         variant = "cov"        # tools/coverage.sh: line coverage of the checks
     bdir = build_dir(variant, repo)
     os.makedirs(bdir, exist_ok=True)
@@ -143,7 +144,7 @@ def build(variant, repo=None, quiet=True):
             inc.append("-I" + os.path.join(VERIF, "harness", "fallback"))
         inc.append("-I" + os.path.join(repo, "src"))
         libflags = list(flags)
-        if variant == "fi":
+        if variant in ("fi", "cov"):
             libflags += ["-include",
                          os.path.join(VERIF, "harness", "failalloc.h")]
         gen_conv_table(repo, os.path.join(bdir, "conv_table.inc"))
